@@ -241,4 +241,51 @@ Section RemS.
       + intros H. split; auto. intros EQ. specialize (F e (kv_of nn) H (or_introl eq_refl)).
         unfold elt in F. rewrite EQ in F. simpl in F. now apply klt_irrefl in F.
   Qed.
+
+  (** ** every history *)
+  Definition full_event (e : ev V) : Prop :=
+    match e with
+    | EPut k _ => kvalid k
+    | EWithPrefix _ | ELongestPrefixOf _ => False
+    | _ => True
+    end.
+
+  Lemma POwn_new : POwn (@p_new V).
+  Proof. unfold POwn. reflexivity. Qed.
+
+  Lemma p_run_full : forall es (t : pstate) m, POwn t -> p_contents t = m -> Forall full_event es ->
+    p_run t es = s_run m es.
+  Proof.
+    induction es as [|e es IH]; intros t m O C F; [reflexivity|].
+    inversion F as [|? ? E F']; subst. pose proof (POwn_PInv t O) as PI. cbn [p_run s_run].
+    destruct e; cbn [full_event] in E; try contradiction;
+      try (match goal with |- context [p_step t ?e] => rewrite (p_step_checked_m t e (PInv_check t PI) I) end;
+           cbn [s_step snd]; f_equal; now apply IH).
+    - (* Put *)
+      destruct (p_put_preserves_own t k v O E) as [t' [P [O' C']]].
+      cbn [p_step s_step]. rewrite P. cbn [rbind lift_mut]. f_equal. now apply IH.
+    - (* Delete *)
+      cbn [p_step s_step]. destruct (sget k (p_contents t)) as [v|] eqn:G.
+      + destruct (p_delete_held t k v O G) as [t' [D [O' C']]]. rewrite D. cbn [lift_mut]. f_equal. now apply IH.
+      + rewrite (p_delete_absent t k (PInv_check t PI) G). cbn [lift_mut].
+        assert (SD : sdel k (p_contents t) = p_contents t) by (apply sdel_notin; now apply sget_none_inv).
+        rewrite SD. f_equal. now apply IH.
+    - (* DeleteMin *)
+      cbn [p_step s_step]. destruct (p_contents t) as [|e0 m'] eqn:CT.
+      + rewrite (p_deletemin_empty t (PInv_empty_root t PI CT)). cbn [lift_mut hd_error tl]. f_equal. now apply IH.
+      + destruct (p_deletemin_held t e0 m' O CT) as [t' [D [O' C']]]. rewrite D. cbn [lift_mut hd_error tl].
+        f_equal. now apply IH.
+    - (* DeleteMax *)
+      cbn [p_step s_step]. destruct (last_error (p_contents t)) as [e0|] eqn:L.
+      + apply last_error_split in L as [m' CT].
+        destruct (p_deletemax_held t e0 m' O CT) as [t' [D [O' C']]]. rewrite D. cbn [lift_mut].
+        rewrite CT, removelast_last. f_equal. now apply IH.
+      + apply last_error_none in L. rewrite (p_deletemax_empty t (PInv_empty_root t PI L)). cbn [lift_mut].
+        rewrite L. simpl. f_equal. apply IH; auto.
+    - (* DeleteAll *)
+      cbn [p_step s_step]. f_equal. apply IH; auto. apply POwn_new.
+  Qed.
+
+  Theorem patricia_refines : forall es : list (ev V), Forall full_event es -> p_run p_new es = s_run [] es.
+  Proof. intros es F. apply p_run_full; auto. apply POwn_new. Qed.
 End RemS.
